@@ -284,6 +284,12 @@ pub fn corpus() -> Vec<(&'static str, Value)> {
       "signal": {"wavelength_nm": 1000, "phi_deg": 20, "theta_external_deg": 2.0, "waist_um": 60},
       "deff_pm_per_volt": 3.0
     })),
+    ("counter_propagation:explicit_period:noncollinear:spectrum_calls", json!({
+      "crystal": {"counter_propagation": true, "kind": "AgGaSe2_2", "length_um": 216.698, "phi_deg": 0.0, "pm_type": "TYPE0_o_oo", "temperature_c": 91.5515, "theta_deg": 90.0},
+      "deff_pm_per_volt": 7.56564, "periodic_poling": {"poling_period_um": -2.38266},
+      "pump": {"average_power_mw": 283.515, "bandwidth_nm": 0.767415, "waist_um": 104.886, "wavelength_nm": 3255.0},
+      "signal": {"phi_deg": 0.0, "theta_deg": 1.0, "waist_position_um": 23.6367, "waist_um": 220.313, "wavelength_nm": 6510.0}
+    })),
     ("crystal_theta_zero:spectrum_calls", base(1550., 775., json!(0), ppa.clone(), json!("auto"), 0.)),
     ("crystal_theta_zero:no_pp:spectrum_calls", base(1550., 775., json!(0.0), Value::Null, json!("auto"), 0.5)),
   ]
